@@ -1,0 +1,134 @@
+// Package cyclic keeps the fmt package away from values it would never
+// finish printing.
+//
+// A template can build a value that contains itself ("<% let a = [1] %>
+// <% a[0] = a %>"), and so can the application that fills the context (a
+// map[string]interface{} stored under one of its own keys). fmt walks such a
+// value until the stack is exhausted, which is a fatal error no recover()
+// sees.
+package cyclic
+
+import (
+	"fmt"
+	"reflect"
+	"unsafe"
+)
+
+// ref identifies a map, or a slice by its first element and length, the way
+// encoding/json does when it looks for cycles.
+type ref struct {
+	p unsafe.Pointer
+	n int
+	t reflect.Type
+}
+
+// Contains reports whether printing v with the fmt package would come back
+// to a map or slice it is in the middle of printing.
+func Contains(v interface{}) bool {
+	if v == nil {
+		return false
+	}
+
+	if rv, ok := v.(reflect.Value); ok {
+		// fmt prints the value a reflect.Value holds
+		return walk(rv, 0, map[ref]bool{})
+	}
+
+	return walk(reflect.ValueOf(v), 0, map[ref]bool{})
+}
+
+// Show is fmt.Sprintf(verb, v) for the verbs %v and %+v; a value that
+// contains itself is described by its type.
+func Show(verb string, v interface{}) string {
+	if Contains(v) {
+		return fmt.Sprintf("(%T that contains itself)", v)
+	}
+
+	return fmt.Sprintf(verb, v)
+}
+
+// walk follows v the way fmt's printValue does: into interfaces, maps,
+// slices, arrays and structs (unexported fields too), through a pointer only
+// at the top level, and not into a value that prints itself.
+func walk(v reflect.Value, depth int, path map[ref]bool) bool {
+	if !v.IsValid() || leaf(v.Type(), depth) {
+		return false
+	}
+
+	if v.CanInterface() {
+		switch v.Interface().(type) {
+		case fmt.Formatter, error, fmt.Stringer:
+			return false
+		}
+	}
+
+	switch v.Kind() {
+	case reflect.Interface:
+		return !v.IsNil() && walk(v.Elem(), depth+1, path)
+	case reflect.Ptr:
+		if v.IsNil() {
+			return false
+		}
+		switch e := v.Elem(); e.Kind() {
+		case reflect.Array, reflect.Slice, reflect.Struct, reflect.Map:
+			return walk(e, depth+1, path)
+		}
+	case reflect.Map:
+		if v.IsNil() {
+			return false
+		}
+		r := ref{p: v.UnsafePointer(), t: v.Type()}
+		if path[r] {
+			return true
+		}
+		path[r] = true
+		defer delete(path, r)
+		for it := v.MapRange(); it.Next(); {
+			if walk(it.Key(), depth+1, path) || walk(it.Value(), depth+1, path) {
+				return true
+			}
+		}
+	case reflect.Slice:
+		if v.IsNil() || leaf(v.Type().Elem(), depth+1) {
+			return false
+		}
+		r := ref{p: v.UnsafePointer(), n: v.Len(), t: v.Type()}
+		if path[r] {
+			return true
+		}
+		path[r] = true
+		defer delete(path, r)
+		fallthrough
+	case reflect.Array:
+		if leaf(v.Type().Elem(), depth+1) {
+			return false
+		}
+		for i := 0; i < v.Len(); i++ {
+			if walk(v.Index(i), depth+1, path) {
+				return true
+			}
+		}
+	case reflect.Struct:
+		for i := 0; i < v.NumField(); i++ {
+			if walk(v.Field(i), depth+1, path) {
+				return true
+			}
+		}
+	}
+
+	return false
+}
+
+// leaf reports whether fmt prints a value of type t, met at the given depth,
+// without looking at anything the value refers to.
+func leaf(t reflect.Type, depth int) bool {
+	switch t.Kind() {
+	case reflect.Interface, reflect.Map, reflect.Slice, reflect.Array, reflect.Struct:
+		return false
+	case reflect.Ptr:
+		// below the top level fmt prints a pointer as an address
+		return depth > 0
+	}
+
+	return true
+}
